@@ -70,6 +70,7 @@ def complex_pass(rng, tier):
 def run(rng, tier, want=('C01', 'C10', 'C11', 'C12', 'C13', 'C14')):
     a = native.algopy(); U = a.UTPM
     DPs = [(1, 1), (3, 2)] if tier == 'quick' else [(1, 1), (2, 3), (4, 2), (6, 1)]
+    if tuple(want) == ('C14',) and tier == 'quick': DPs = DPs + [(7, 1)]          # byte-wise frames need D > 3: (x*d)/d is not the identity in floating point from d = 3 on
     if tuple(want) == ('C12',): DPs = DPs + [(12, 2)]          # long series: fast paths keyed on the number of coefficients (FFT products, blocked loops)
     for op in optable.table():
         if op.only is not None and not (set(op.only) & set(want)): continue
@@ -107,6 +108,17 @@ def run(rng, tier, want=('C01', 'C10', 'C11', 'C12', 'C13', 'C14')):
                     if f14 is None and not op.view and not op.name.startswith(('reshape', 'real', 'imag', 'getitem', 'transpose')):
                         outs_ = r if isinstance(r, (tuple, list)) else (r,)
                         if any(isinstance(o, U) and any(o is u or numpy.shares_memory(o.data, u.data) for u in us) for o in outs_): f14 = 'the result is (or shares memory with) an operand'
+                    # the table's coefficients are dyadic rationals (exact arithmetic for the value checks); a frame violation of one ulp -- e.g. an
+                    # operand scaled in place and scaled back -- only shows on generic floating-point values
+                    if f14 is None and op.kind != 'frame-only' and not op.cplx:
+                        try:
+                            xg = [x * (1.0 + numpy.array([rng.random() for _ in range(x.size)]).reshape(x.shape) / 7.0) for x in arrs]
+                            if op.kind == 'linalg' or min(float(numpy.min(x[0])) for x in xg) >= op.dom[0] and max(float(numpy.max(x[0])) for x in xg) <= op.dom[1] * 1.2:
+                                ug = [U(x.copy()) for x in xg]
+                                with numpy.errstate(all='ignore'): op.f(*ug)
+                                badg = [i for i, (u, x) in enumerate(zip(ug, xg)) if not numpy.array_equal(u.data, x)]
+                                if badg: f14 = 'operand %s modified (generic floating-point coefficients; max change %.3g)' % (badg, max(float(numpy.abs(ug[i].data - xg[i]).max()) for i in badg))
+                        except Exception: pass
                     yield 'C14', op.name, case, f14
                 # ---- C10 zeroth coefficient / shape like NumPy
                 if 'C10' in want and op.npf is not None:
